@@ -47,5 +47,10 @@ meta={"property":p,"mutant":m,"source":"independent sub-agent given only the pro
  "confirmed":{"demo_on_untouched_tree":rc,"existing_suite_with_change":rs,"demo_with_change":rm},
  "checks_run_against_it":res.replace("\\n","\n").strip().split("\n"),
  "needs_to_manifest":"see README.md"}
+import os
+nf="/verif/seeded/notes.json"
+if os.path.exists(nf):
+    n=json.load(open(nf)).get(f"{p}-{m}")
+    if n: meta["note"]=n
 json.dump(meta,open(f"/verif/seeded/{p}-{m}/meta.json","w"),indent=1)
 PY
